@@ -124,7 +124,7 @@ class H(semh.Base):
                 op = vform.split(":")[2] if len(vform.split(":")) > 2 and vform.split(":")[2] in "+-*/" else "+"
                 value = f"v {op} w" if not vform.endswith(":r") else f"w {op} v"
             else:
-                value = {"var": "v", "arith_vv": "v + v", "arith_vl": "v + 1", "mul_vv": "v * v", "neg": "- v", "cast": f"{s2} ( v )", "paren": "( v )"}[vform]
+                value = {"var": "v", "arith_vv": "v + v", "arith_vl": "v + 1", "mul_vv": "v * v", "neg": "- v", "cast": f"{s2} ( v )", "cast_self": f"{s1} ( v )", "paren": "( v )"}[vform]
             if form == "decl":
                 body = f"{'const ' if c2 else ''}{s2} x = {value} ;"
             else:
@@ -195,6 +195,12 @@ class H(semh.Base):
         elif e.v == "MeasureExpression":
             o = e[0]["operand"]
             ot = o["ty"]
+            # the operand written decides the shape: one element of a register (`r [ 0 ]`) is one qubit, so its measurement is one bit
+            oe = o["expression"]
+            if oe.v == "GateOperand" and oe[0].v == "IndexedIdentifier":
+                idx = oe[0][0]["indexes"]
+                if len(idx) == 1 and idx[0].v == "ExpressionList" and len(idx[0][0]["expressions"]) == 1 and ty.v != "Bit":
+                    raise Violation(f"`{self.label()}`: measurement of one element of a qubit register typed {ty!r} (the operand is typed {ot!r})")
             if ot.v == "Qubit" and ty.v != "Bit":
                 raise Violation(f"`{self.label()}`: measurement of a qubit typed {ty!r}")
             if ot.v == "QubitArray":
@@ -238,7 +244,9 @@ class H(semh.Base):
                 t3 = vform.split(":")[1]
                 if t3 != t1 and (t1 in SPECIAL or t3 in SPECIAL) and not typediag:
                     raise Violation(f"`{self.label()}`: arithmetic on {t1} and {t3} operands (no common type) is accepted without diagnostic (expression typed {vt!r})")
-            if vform in ("var", "arith_vv", "mul_vv", "neg", "paren", "call"):
+            if vform.startswith("arith") and vt.v == "Void" and not typediag:
+                raise Violation(f"`{self.label()}`: arithmetic on {t1} operands is typed Void (no common type) and accepted without diagnostic")
+            if vform in ("var", "arith_vv", "mul_vv", "neg", "paren", "call", "cast_self"):
                 if downward(t1, t2) and not typediag:
                     raise Violation(f"`{self.label()}`: a {t1} value is converted down to {t2} without diagnostic (value typed {vt!r}, target {tx!r})")
                 if t1 == t2 and self.W1 is not None and self.W2 is not None and not c1 and not typediag:
@@ -257,7 +265,7 @@ def build_tasks(quick):
     tasks = []
     types = list(TY)
     wopts = lambda t: ((0, 1) if quick else (0, 1, 2)) if t in WIDTHED else (0,)
-    vforms = ("var", "arith_vv", "cast", "neg", "call") if quick else ("var", "arith_vv", "arith_vl", "mul_vv", "cast", "neg", "paren", "call")
+    vforms = ("var", "arith_vv", "cast", "cast_self", "neg", "call") if quick else ("var", "arith_vv", "arith_vl", "mul_vv", "cast", "cast_self", "neg", "paren", "call")
     for form in ("decl", "assign"):
         for t1 in types:
             for w1 in wopts(t1):
@@ -274,7 +282,9 @@ def build_tasks(quick):
                                         continue
                                     if vf.startswith("arith_vw:") and t1 in ("bit", "duration", "stretch"):
                                         continue
-                                    if quick and vf != "var" and (w1 != w2):
+                                    if vf == "cast_self" and (t1 != t2 or c1 or t1 not in ("int", "uint", "float") or not (w1 and w2)):
+                                        continue          # a cast to the value's OWN type: its result is as wide as the value, whatever const-ness casts carry
+                                    if quick and vf not in ("var", "cast_self") and (w1 != w2):
                                         continue
                                     if vf == "call" and (c1 or t1 in ("duration", "stretch")):
                                         continue
